@@ -177,6 +177,33 @@ pub fn run(a: &Args) {
             }
         }
     }
+    // Reader level under allocation limits: what a limit lets through must not depend on the delivery (what is charged against the limit is a
+    // function of the file, not of how much the reader happens to have buffered)
+    {
+        let mut big: Vec<(String, Vec<u8>)> = vec![];
+        for (w, h, c, d, il) in [(200u32, 600u32, 0u8, 8u8, false), (300, 150, 2, 8, false), (120, 500, 4, 8, true), (1000, 70, 0, 16, false)] {
+            let im = crate::c01::random_image(&mut rng, w, h, c, d, il);
+            big.push((im.name.clone(), im.file.clone()));
+        }
+        let b = crate::gen::held_back_tail_file(63, 1030, 2, 1, &[], &[]);
+        big.push((b.name.clone(), b.bytes.clone()));
+        for (name, bytes) in &big {
+            for limit in [200usize, 4096, 65_536, 70_000, 131_072, 300_000, 1 << 22] {
+                let one = reader_summary_limited(bytes, &[0], Opts::default(), 0, Some(limit));
+                for sc in [vec![1usize], vec![64], vec![1000], vec![8192], vec![rng.range(2, 5000) as usize]] {
+                    if bytes.len() > 60_000 && sc[0] == 1 && !thorough { continue; }
+                    let got = reader_summary_limited(bytes, &sc, Opts::default(), 0, Some(limit));
+                    o.direct_checks += 1;
+                    o.count("reader-under-limits");
+                    if got != one {
+                        o.violation(viol("reader-result-depends-on-delivery", vec![("file", jstr(name)), ("limit", limit.to_string()), ("schedule", jstr(&format!("{:?}", sc))),
+                            ("whole", jstr(&one.chars().take(400).collect::<String>())), ("pieces", jstr(&got.chars().take(400).collect::<String>()))]));
+                        break;
+                    }
+                }
+            }
+        }
+    }
     o.finish();
 }
 
